@@ -724,3 +724,138 @@ def run_lib(pym, fm, recipe, seed, nops, stats=None):
     net['net'].sensitivity()
     compare(observe_all(net), fresh_cycle(pym, fm, recipe, data_seed, cur, seeds), tol, 'final cycle', failed)
     return failed, dict(recipe=recipe, kind='random', seed=int(seed), nops=nops, ops=log, seeds=sorted(seeds))
+
+
+# ============================================================================ bookkeeping observations (correspondence)
+# The memories modelled in Model/Hist.v (Cholesky with LDL fallback, per-mode adjoint solvers of EigenSolve) are tied to
+# the code by observing WHICH matrix an answer / a held factorisation belongs to, and letting Coq evaluate the model on
+# tags (tag_answers, tag_adj_trace).
+def _which(cands, x, b, trans='N'):
+    """index (0-based) of the unique candidate matrix M with M x = b (normalised residual <= 1e-8), else -2"""
+    hits = []
+    for j, M in enumerate(cands):
+        M = M.toarray() if hasattr(M, 'toarray') else np.asarray(M)
+        Mt = M if trans == 'N' else M.T if trans == 'T' else M.conj().T
+        r = np.linalg.norm(Mt @ x - b)
+        den = np.linalg.norm(Mt) * np.linalg.norm(x) + np.linalg.norm(b)
+        if np.all(np.isfinite(x)) and r <= 1e-8 * den:
+            hits.append(j)
+    return hits[0] if len(hits) == 1 else -2
+
+
+def chol_sequence(g, pds, cplx=False, n=5):
+    """pairwise clearly different Hermitian matrices with an all-positive diagonal; pds[k] says whether the k-th one is
+    positive definite (spectrum chosen, not computed)"""
+    Q0 = g.standard_normal((n, n)) + (1j * g.standard_normal((n, n)) if cplx else 0)
+    Q, _ = np.linalg.qr(Q0)
+    one = np.ones((n, n)) - np.eye(n)
+    if cplx:
+        ph = np.exp(1j * g.uniform(0, 2 * np.pi, n))
+        one = (ph[:, None] * one) * ph.conj()[None, :]
+    out = []
+    for k, pd in enumerate(pds):
+        d = (1.0 + k) + np.sort(g.uniform(0.5, 2.0, n))               # spectrum > 0, level differs from matrix to matrix
+        A = (Q * d[None, :]) @ Q.conj().T
+        if not pd:
+            A = A + (d.max() + 2.0 + g.random()) * one                # same positive diagonal, eigenvalues below zero
+        out.append(A if cplx else np.real(A))
+    return out
+
+
+def chol_bookkeeping(pym, g, pds, cplx, via):
+    """returns (tags per step [N answer, T answer] (1-based), contract validations)
+    via='solver': one SolverDenseCholesky object: update(A_k); solve(b); solve(b, trans='T')
+    via='linsolve': one LinSolve module: response() on A_k (state u), seed on u; sensitivity() (sensitivity of b)"""
+    import scipy.linalg as spla
+    As = chol_sequence(g, pds, cplx)
+    n = As[0].shape[0]
+    valid = 0
+    for A, pd in zip(As, pds):         # contract of the tag instance: cholesky succeeds iff positive definite
+        try:
+            spla.cholesky(A)
+            ok = True
+        except np.linalg.LinAlgError:
+            ok = False
+        if ok != bool(pd) or not np.all(np.real(np.diag(A)) > 0):
+            return None, 0
+        valid += 1
+    b = g.standard_normal(n) + (1j * g.standard_normal(n) if cplx else 0)
+    tags = []
+    if via == 'solver':
+        s = pym.solvers.SolverDenseCholesky()
+        for A in As:
+            s.update(A.copy())
+            tags.append([_which(As, s.solve(b.copy()), b) + 1, _which(As, s.solve(b.copy(), trans='T'), b, 'T') + 1])
+    else:
+        sA, sb = pym.Signal('A', As[0].copy()), pym.Signal('b', b.copy())
+        m = pym.LinSolve([sA, sb], pym.Signal('u'))
+        for A in As:
+            m.reset()
+            sA.state = A.copy()
+            m.response()
+            tN = _which(As, np.asarray(m.sig_out[0].state), b) + 1
+            w = g.standard_normal(n) + (1j * g.standard_normal(n) if cplx else 0)
+            m.sig_out[0].sensitivity = w.copy()
+            m.sensitivity()
+            tags.append([tN, _which(As, np.asarray(sb.sensitivity), w, 'T') + 1])
+    return tags, valid
+
+
+def eig_bookkeeping(pym, g, ops, generalized, nmodes=3, n=10):
+    """ops: list of None (new design; response) | list of bools (reset; seed the eigenvectors of these modes; sensitivity).
+    returns per pass the list over modes of None | [k, i] = the solver of that mode holds the factorisation of
+    A_k - lambda_i^(k) B_k (k = 1-based index of the response)"""
+    import scipy.sparse as sps
+    G = [g.standard_normal((n, n)) for _ in range(3)]
+    A0 = 6.0 * np.eye(n) + np.diag(np.arange(n) * 1.3)
+    As = [0.3 * a @ a.T / n for a in G]
+    sA = pym.Signal('A')
+    ins = [sA]
+    if generalized:
+        sB = pym.Signal('B')
+        ins.append(sB)
+        H = [g.standard_normal((n, n)) for _ in range(3)]
+        Bs = [0.03 * a @ a.T / n for a in H]
+    mE = pym.EigenSolve(ins, [pym.Signal('lam'), pym.Signal('Q')], nmodes=nmodes)
+    cands, labels, out = [], [], []
+    k = 0
+    for op in ops:
+        if op is None:
+            k += 1
+            x = 0.5 + 1.5 * g.random(3)
+            A = A0 + sum(xi * Ai for xi, Ai in zip(x, As))
+            sA.state = sps.csc_matrix(A)
+            B = np.eye(n)
+            if generalized:
+                B = np.eye(n) + sum(xi * Bi for xi, Bi in zip(x, Bs))
+                sB.state = sps.csc_matrix(B)
+            mE.response()
+            W = np.array(mE.sig_out[0].state)
+            for i in range(nmodes):
+                cands.append(A - W[i] * B)
+                labels.append([k, i])
+        else:
+            mE.reset()
+            dQ = np.zeros_like(mE.sig_out[1].state)
+            for i, sd in enumerate(op):
+                if sd:
+                    dQ[:, i] = g.standard_normal(dQ.shape[0])
+            mE.sig_out[1].sensitivity = dQ
+            mE.sensitivity()
+            cells = []
+            solvers = getattr(mE, 'solvers', None)
+            for i in range(nmodes):
+                s = None if solvers is None else solvers[i]
+                if s is None:
+                    cells.append(None)
+                    continue
+                r = g.standard_normal(n)
+                try:
+                    xs = np.asarray(s.solve(r.copy())).ravel()
+                except Exception:
+                    cells.append(None)       # a solver object that holds no factorisation
+                    continue
+                j = _which(cands, xs, r)
+                cells.append(labels[j] if j >= 0 else [-2, -2])
+            out.append(cells)
+    return out
